@@ -31,6 +31,32 @@ fn all_bodies(w: &World, c: usize) -> Vec<(usize, String, message_types::Message
     v
 }
 
+/// A client that has processed its own removal - its MLS layer merged the removing commit (the
+/// group is inactive there) or the library answered the commit with `Commit` - must show the group
+/// as Inactive and must not be able to send. Returns false after reporting a violation.
+fn judge_removed(prop: &str, i: u64, w: &mut World, g: usize, target: usize, idx: usize, how: &str, out: &mut Outcome) -> bool {
+    let gid = w.gid(g);
+    let first = w.clients[target].first_result.get(&idx).cloned().unwrap_or_default();
+    let merged = w.mls_active(target, g) == Some(false);
+    if first != "Commit" && !merged {
+        // the target did not process its removal (it lags or is forked): nothing to judge here
+        return true;
+    }
+    out.count("removals");
+    out.note("removal_kinds", format!("{how}:first-result={first}"));
+    let st = w.clients[target].group_state(&gid);
+    if st != Some(group_types::GroupState::Inactive) {
+        out.violation(format!("{prop}|removed-member-not-inactive|{how}|state={:?}", st), format!("c{target} processed its own removal (e{idx}, {how}; result {first}; MLS group inactive: {merged}) but its group state is {:?}", st), json!({"scenario": i, "trace": trace_tail(w, 25)}));
+        return false;
+    }
+    let ts = w.base_ts;
+    if w.act_message(target, g, ts).is_some() {
+        out.violation(format!("{prop}|removed-member-can-send|{how}"), format!("c{target} created a message after processing its removal ({how})"), json!({"scenario": i, "trace": trace_tail(w, 25)}));
+        return false;
+    }
+    true
+}
+
 pub fn history(prop: &str, i: u64, rng: &mut Rng, out: &mut Outcome, dir: &std::path::Path) {
     let mut w = World::empty(dir.to_path_buf(), format!("c03-{i}"));
     let cfg = mdk_core::MdkConfig::default();
@@ -123,21 +149,7 @@ pub fn history(prop: &str, i: u64, rng: &mut Rng, out: &mut Outcome, dir: &std::
                 broadcast(&mut w, idx, &mut returned_plaintext);
                 ex_members.insert(target);
                 labels.push("remove".into());
-                if w.clients[target].first_result.get(&idx).map(|r| r.as_str()) != Some("Commit") {
-                    // the target did not process its removal (it lags or is forked): nothing to judge here
-                    continue;
-                }
-                // the removed client processed its removal: inactive, cannot send
-                out.count("removals");
-                let st = w.clients[target].group_state(&gid);
-                if st != Some(group_types::GroupState::Inactive) {
-                    out.violation(format!("{prop}|removed-member-not-inactive|state={:?}", st), format!("c{target} processed its own removal (e{idx}) but its group state is {:?}", st), json!({"scenario": i, "trace": trace_tail(&w, 20)}));
-                    w.cleanup();
-                    return;
-                }
-                let ts = w.base_ts;
-                if w.act_message(target, g, ts).is_some() {
-                    out.violation(format!("{prop}|removed-member-can-send"), format!("c{target} created a message after processing its removal"), json!({"scenario": i, "trace": trace_tail(&w, 20)}));
+                if !judge_removed(prop, i, &mut w, g, target, idx, "remove", out) {
                     w.cleanup();
                     return;
                 }
@@ -170,6 +182,60 @@ pub fn history(prop: &str, i: u64, rng: &mut Rng, out: &mut Outcome, dir: &std::
                     broadcast(&mut w, ci, &mut returned_plaintext);
                     ex_members.insert(m);
                     labels.push("leave".into());
+                    if !judge_removed(prop, i, &mut w, g, m, ci, "leave-committed-by-admin", out) {
+                        w.cleanup();
+                        return;
+                    }
+                }
+            }
+        } else if r < 86 && !admins.is_empty() && cur.len() > 2 {
+            // a leave that an admin commits TOGETHER with an add: the admin holds a pending commit
+            // when the leave proposal arrives (so it is queued), drops that commit and adds a new
+            // user - one commit carries Remove(leaver) + Add(newcomer), and the newcomer takes the
+            // leaver's leaf when that is the leftmost free one
+            let a = *rng.pick(&admins);
+            let cands: Vec<usize> = cur.iter().copied().filter(|c| *c != a && !w.is_admin_now(*c, g)).collect();
+            if cands.is_empty() {
+                continue;
+            }
+            let m = *rng.pick(&cands);
+            mdk_core::verif::set_created_at(Some(w.t));
+            if with_mdk!(w.clients[a].mdk, x => x.self_update(&gid)).is_err() {
+                continue;
+            }
+            let Some(pidx) = w.act_leave(m, g) else {
+                let _ = with_mdk!(w.clients[a].mdk, x => x.clear_pending_commit(&gid));
+                continue;
+            };
+            let d = w.deliver(a, pidx, OwnMode::Immediate);
+            let _ = with_mdk!(w.clients[a].mdk, x => x.clear_pending_commit(&gid));
+            if d.produced.is_some() || d.class != "PendingProposal" {
+                // the admin did not queue it (it auto-committed or refused): not this case
+                if let Some(ci) = d.produced {
+                    let _ = ci;
+                }
+                continue;
+            }
+            let t = w.t + 1;
+            if let Some(idx) = w.act_commit(a, g, &CommitKind::Add, t, OwnMode::Immediate, 0, rng) {
+                let ws = w.log[idx].welcomes.clone();
+                // everybody else must know the proposal before the commit that references it
+                for c in cur.iter().copied().filter(|c| *c != a && *c != m) {
+                    w.deliver(c, pidx, OwnMode::Echo);
+                }
+                broadcast(&mut w, idx, &mut returned_plaintext);
+                for (j, rumor) in ws {
+                    welcomes.push((j, rumor));
+                    w.join(j, idx);
+                }
+                labels.push("leave+add-in-one-commit".into());
+                if !w.members_at(a, g).contains(&w.clients[m].pk()) {
+                    ex_members.insert(m);
+                    out.count("leave_and_add_in_one_commit");
+                    if !judge_removed(prop, i, &mut w, g, m, idx, "remove+add-in-one-commit", out) {
+                        w.cleanup();
+                        return;
+                    }
                 }
             }
         } else {
